@@ -9,6 +9,7 @@ package gen
 // corresponding meta-schema definitions.
 
 import (
+	"encoding/json"
 	"fmt"
 	"sort"
 	"strings"
@@ -31,6 +32,7 @@ type VocabOpts struct {
 	NoExtensions    bool
 	ScalarItemsPct  int  // (C07 only) not used by the normal form
 	EmptySecurity   bool // allow `security: []` and empty requirement objects (C14; outside C01's normal form)
+	Valid           bool // (C19) stay inside what schemas/v2/schema.json accepts: restricted schema vocabulary, value constraints, well-founded local $refs
 	Budget          int  // maximum number of optional members in one instance (default 40)
 	NonNormalXOrder bool // (C06) x-order extensions on properties: ints, numeric strings, ties, floats, junk
 }
@@ -61,6 +63,8 @@ type V struct {
 	Keywords    int
 	MaxDepth    int
 	budget      int // remaining optional members (bounds the size of an instance)
+	// (Valid mode) names of the referable elements of the document being generated
+	DefNames, ParamNames, RespNames, SecNames []string
 }
 
 func NewV(t *rapid.T, o VocabOpts) *V {
@@ -334,6 +338,20 @@ var idPoolV = []string{"http://example.com/schemas/a.json", "urn:x", "a.json", "
 var schemaURLPool = []string{"http://json-schema.org/draft-04/schema", "http://swagger.io/v2/schema.json", "http://example.com/meta#frag"}
 
 func refStr(v *V, d int) any { return refPool[Uniform(v.T, "ref", len(refPool))] }
+
+func fragEscape(name string) string {
+	name = strings.ReplaceAll(strings.ReplaceAll(name, "~", "~0"), "/", "~1")
+	var sb strings.Builder
+	for _, c := range []byte(name) {
+		switch {
+		case c == '%' || c == ' ' || c == '{' || c == '}' || c == '#' || c == '"' || c == '\\' || c == '^' || c == '`' || c == '|' || c == '<' || c == '>' || c == '?' || c < 0x20 || c >= 0x7f:
+			fmt.Fprintf(&sb, "%%%02X", c)
+		default:
+			sb.WriteByte(c)
+		}
+	}
+	return sb.String()
+}
 
 // ---------------------------------------------------------------------------
 // the vocabulary
@@ -611,6 +629,9 @@ func (v *V) instanceFl(k, fl string, d int, only string) any {
 		return out
 	}
 	fields := fieldsOf(k, fl)
+	if v.O.Valid {
+		fields = validFields(k, fields)
+	}
 	keywords := KeywordsOf(k)
 	out := map[string]any{}
 	deep := d >= v.O.MaxDepth
@@ -648,7 +669,10 @@ func (v *V) instanceFl(k, fl string, d int, only string) any {
 		v.Keywords++
 	}
 	_ = pathItemRefOnly
-	if k == "schema" && (only == "" || only == "?unknown") && (only != "" || Pct(v.T, "unknownkw", 15)) {
+	if v.O.Valid {
+		v.repairValid(k, fl, out)
+	}
+	if k == "schema" && !v.O.Valid && (only == "" || only == "?unknown") && (only != "" || Pct(v.T, "unknownkw", 15)) {
 		name := unknownKeywords[Uniform(v.T, "unknown", len(unknownKeywords))]
 		if !caseCollides(name, keywords) {
 			out[name] = v.Free(0)
@@ -859,6 +883,14 @@ func PayloadRoots(kind string, value any) []string {
 		}
 	})
 	return out
+}
+
+func mustMarshal(v any) []byte {
+	b, err := json.Marshal(v)
+	if err != nil {
+		panic(err)
+	}
+	return b
 }
 
 // AllKeywords is the union of the keywords of all kinds.
